@@ -180,6 +180,34 @@ Definition log_likelihood_poisson_binned (pred : list T) (obs : list Z) (bg : li
 Definition likelihood_poisson_binned (pred : list T) (obs : list Z) (bg : list T) : res T :=
   rbind (log_likelihood_poisson_binned pred obs bg) (fun l => Ok (nexp Ops l)).
 
+(** ** 2b. A session: several likelihood requests answered one after the other in one process.
+    The likelihood functions of Statistics.cpp keep nothing between two calls (no static variable, no cache, no
+    member): the state carried from one request to the next is empty, [lik_step] returns it unchanged and computes
+    the answer from the request alone.  This holds for every request, also for those outside the property's ranges
+    (total expectation 0 or negative, counts beyond 500), which the library answers with -inf / NaN without
+    terminating.  A request that terminates the process (binned size mismatch) ends the session. *)
+Inductive lik_req : Type :=
+  | ReqLik (npred : T) (nobs : Z) (bg : T)
+  | ReqBinned (pred : list T) (obs : list Z) (bg : list T).
+
+Definition lik_answer (q : lik_req) : res (T * T) :=
+  match q with
+  | ReqLik s n b => Ok (log_likelihood_poisson s n b, likelihood_poisson s n b)
+  | ReqBinned p o g =>
+      rbind (log_likelihood_poisson_binned p o g) (fun l =>
+      rbind (likelihood_poisson_binned p o g) (fun k => Ok (l, k)))
+  end.
+
+Definition lik_step (st : unit) (q : lik_req) : unit * res (T * T) := (st, lik_answer q).
+
+Fixpoint lik_session_from (st : unit) (qs : list lik_req) : res (list (T * T)) :=
+  match qs with
+  | [] => Ok []
+  | q :: r => let (st', a) := lik_step st q in
+              rbind a (fun a => rbind (lik_session_from st' r) (fun t => Ok (a :: t)))
+  end.
+Definition lik_session (qs : list lik_req) : res (list (T * T)) := lik_session_from tt qs.
+
 (** ** 6. Kernel density estimation: the table handed to the Interpolation constructor.
     A data point is a pair (value, weight).  std::sort is modelled by its specification (insertion
     sort by value).  The final renormalisation (division by the adaptive-Simpson integral of the
